@@ -53,6 +53,30 @@ func (l List) Canon() string {
 	return "[" + strings.Join(parts, ",") + "]"
 }
 
+// Appended is an opaque slice with known elements appended to it. Appending an element
+// that is already present (same canonical form) is idempotent, so that loop states repeat.
+type Appended struct {
+	Base  Val
+	Elems []Val
+}
+
+func (a Appended) Canon() string {
+	parts := make([]string, len(a.Elems))
+	for i, e := range a.Elems {
+		parts[i] = e.Canon()
+	}
+	b := "nil"
+	if a.Base != nil {
+		b = a.Base.Canon()
+	}
+	return "append(" + b + ";[" + strings.Join(parts, ",") + "])"
+}
+
+// Spread marks a slice passed with `...`.
+type Spread struct{ V Val }
+
+func (s Spread) Canon() string { return s.V.Canon() + "…" }
+
 // Tuple is a multi-value result.
 type Tuple struct{ Elems []Val }
 
